@@ -52,6 +52,7 @@ type Explorer struct {
 	foundKey map[string]bool
 	stateCap int
 	onState  func(w *World, path []Event) // optional per-state hook (C11 sweep, liveness oracles)
+	onEdge   func(w *World, path []Event) // optional hook for every transition, also into an already known state (history-dependent oracles: C05 twins)
 	onTerminal func(w *World, path []Event)
 	stopOnViolation bool
 	clones int
@@ -246,6 +247,9 @@ func (x *Explorer) bfs() {
 				}
 				k := w2.key()
 				if _, ok := x.seen[k]; ok {
+					if x.onEdge != nil {
+						x.onEdge(w2, expand(np))
+					}
 					continue
 				}
 				x.seen[k] = 1
